@@ -136,14 +136,22 @@ def only_thorough(spec):
 
 C10_PARSER_PART = (G, "gosym_part", dict(name="c10_expression_parser", entry="pkg/dsl.VerifC10Parser", args_quick=(4,), args_thorough=(6,),
                                          extra_quick=("-max-paths", "200000", "-replay-sample", "24"), extra_thorough=("-max-paths", "4000000", "-replay-sample", "48"),
-                                         required_sites=("parser-terminates", "parser-does-not-panic", "expression-or-error"),
+                                         required_sites=("parser-terminates", "parser-does-not-panic", "expression-or-error", "error-is-positioned"),
                                          assumptions=["the regular-expression lexer (participle) is outside the executor: its output is over-approximated by EVERY sequence of n tokens over "
-                                                      "the 19 token kinds of expressionLexer (symbolic token type per position; token text fixed to \"1\") followed by EOF",
+                                                      "the 19 token kinds of expressionLexer (symbolic token type per position; token text symbolic over {\"1\", \"09\"}: only Int tokens interpret it) followed by EOF",
                                                       "participle's PeekingLexer / lexer.Upgrade / Token.EOF are the library's own code, interpreted; lexer.MustSimple / Symbols are modelled "
                                                       "(rule i gets token type EOF-1-i, as in participle v2.1.4)",
                                                       "termination = the parse completes within 400 nested calls and 400000 SSA instructions (verifBounded); natively a 5 s child process"],
                                          desc="the hand-written precedence parser for computed-field expressions (parseExpr, parseExprWithPrecedence, parseAtom, parseCall, parseSubscript, "
                                               "parseSubscriptArg, combineOperands) on every token sequence of length n (arg): terminates, does not panic, returns exactly one of (expression, error)"))
+
+C10_DEFUSE_PART = (G, "gosym_part", dict(name="c10_def_use", entry="internal/zzverif.C10DefUse", args_quick=(), args_thorough=(),
+                                         required_sites=("validate-terminates", "validate-does-not-panic", "violation-rejected"),
+                                         assumptions=C10_ASSUME + ["termination = dsl.Validate completes within 200 nested calls and 3 000 000 SSA instructions (verifBounded); natively a child process with a stack and time limit"],
+                                         desc="validation passes continue after an earlier pass recorded an error: each of the 22 definition-level rule violations of the C09 harness "
+                                              "(incl. reference cycles through records, through aliases with containers, and through plain aliases) combined with a USE of the offending "
+                                              "definition at 15 kinds of type position (the 10 of C09 plus map key, enum base, flags base, type argument, conversion target) x {main, imported "
+                                              "namespace}: Validate terminates, does not panic, rejects the model and names the file"))
 
 C10_FORMS = {
     0: (G, "gosym_part", dict(name="c10_computed_form0", entry="internal/zzverif.C10Computed", args_quick=(1, 0), args_thorough=(1, 0), key_fn=c10_key,
@@ -406,7 +414,7 @@ PARTS = {
                                desc="real dsl.Validate (resolveComputedFields, GetCommonType, insertConversion) on `a op b` and `b op a` for symbolic numeric primitive types of a, b "
                                     "(13 x 13) and all 5 operators: accept/reject and static type do not depend on operand order; kind/width of the result")),
     ],
-    "C10": [C10_FORMS[f] for f in (0, 1, 3, 4, 5)] + [only_thorough(C10_FORMS[f]) for f in (2, 6)] + C10_SHAPES + [C10_GRAPH_PART, C10_PARSER_PART],  # C10_GRAPH_PART: no hang / panic of the package loader for any import graph
+    "C10": [C10_FORMS[f] for f in (0, 1, 3, 4, 5)] + [only_thorough(C10_FORMS[f]) for f in (2, 6)] + C10_SHAPES + [C10_GRAPH_PART, C10_PARSER_PART, C10_DEFUSE_PART],  # C10_GRAPH_PART: no hang / panic of the package loader for any import graph
     "C09": [
         (G, "gosym_part", dict(name="c09_base", entry="internal/zzverif.C09Base", required_sites=("base-accepted",), assumptions=C09_ASSUME,
                                desc="the unmodified two-namespace base model validates (guards against an over-rejecting harness)")),
